@@ -26,6 +26,7 @@
 package main
 
 import (
+	"sync/atomic"
 	"context"
 	"errors"
 	"fmt"
@@ -420,9 +421,40 @@ func errClass(err error) string {
 	return "other"
 }
 
+// gate: the first MessageRoot() call on a gated value parks its goroutine until released (later calls,
+// from whichever goroutine, pass). It places a whole second call between two steps of the first.
+type gate struct {
+	first   atomic.Bool
+	reached chan struct{}
+	release chan struct{}
+}
+
+type gatedSD struct {
+	core.SignedData
+	g *gate
+}
+
+func (w gatedSD) MessageRoot() ([32]byte, error) {
+	if w.g.first.CompareAndSwap(false, true) {
+		close(w.g.reached)
+		<-w.g.release
+	}
+	return w.SignedData.MessageRoot()
+}
+
+func (w gatedSD) Clone() (core.SignedData, error) {
+	c, err := w.SignedData.Clone()
+	if err != nil {
+		return nil, err
+	}
+	return gatedSD{SignedData: c, g: w.g}, nil
+}
+
 // attempt executes the calls (one: directly; two: racing on two goroutines released together from
-// the deadliner's Add) on the real MemDB.
-func (ep *episode) attempt(calls []call) []*callObs {
+// the deadliner's Add; gated: the first call is parked at its first MessageRoot() - in the code as it is
+// the threshold evaluation after its first insert -, the second call runs to completion, then the first
+// is released) on the real MemDB.
+func (ep *episode) attempt(calls []call, gated bool) []*callObs {
 	ep.obsMu.Lock()
 	ep.cur = make([]*callObs, len(calls))
 	ep.curCB = make([]bool, len(calls))
@@ -444,7 +476,7 @@ func (ep *episode) attempt(calls []call) []*callObs {
 			ep.dl.trimMid = func() { m := ep.db.VerifSnapshot(); ep.mid = &m }
 		}
 	}
-	if len(calls) > 1 {
+	if len(calls) > 1 && !gated {
 		ep.dl.barrier = &sync.WaitGroup{}
 		ep.dl.barrier.Add(len(calls))
 	} else {
@@ -452,15 +484,37 @@ func (ep *episode) attempt(calls []call) []*callObs {
 	}
 	ep.dl.mu.Unlock()
 	var wg sync.WaitGroup
+	var gt *gate
+	if gated {
+		gt = &gate{reached: make(chan struct{}), release: make(chan struct{})}
+	}
 	for i, c := range calls {
 		set := core.ParSignedDataSet{}
 		for _, e := range c.entries {
-			set[ep.pks[e.pk]] = ep.parSig(c, e)
+			ps := ep.parSig(c, e)
+			if gated && i == 0 {
+				ps.SignedData = gatedSD{SignedData: ps.SignedData, g: gt}
+			}
+			set[ep.pks[e.pk]] = ps
 		}
 		ctx := context.WithValue(context.Background(), ctxKey{}, i)
 		wg.Add(1)
+		done := make(chan struct{})
+		if gated && i == 1 {
+			// the second call starts once the first is parked (or has returned without reading a root)
+			// and the first is released when the second has returned (2 s: the first may be parked
+			// inside the store's lock - a duplicate share's equality check - and hold the second up)
+			go func(done chan struct{}) {
+				select {
+				case <-done:
+				case <-time.After(2 * time.Second):
+				}
+				close(gt.release)
+			}(done)
+		}
 		go func(i int, c call) {
 			defer wg.Done()
+			defer close(done)
 			var err error
 			if c.internal {
 				err = ep.db.StoreInternal(ctx, c.duty(), set)
@@ -471,6 +525,12 @@ func (ep *episode) attempt(calls []call) []*callObs {
 			ep.cur[i].err = errClass(err)
 			ep.obsMu.Unlock()
 		}(i, c)
+		if gated && i == 0 {
+			select {
+			case <-gt.reached:
+			case <-done:
+			}
+		}
 	}
 	wg.Wait()
 	ep.dl.mu.Lock()
@@ -812,7 +872,7 @@ func (d *driver) doNew(t int) {
 	d.run.Op(fmt.Sprintf("new %d", t), "ok")
 }
 
-func (d *driver) doCalls(calls []call, target string) {
+func (d *driver) doCalls(calls []call, target string, gated bool) {
 	ep := d.ep
 	pre := ep.db.VerifSnapshot()
 	var obs []*callObs
@@ -827,7 +887,7 @@ func (d *driver) doCalls(calls []call, target string) {
 			ep.db.VerifRestore(pre)
 			d.run.Count("exec:retry")
 		}
-		obs = ep.attempt(calls)
+		obs = ep.attempt(calls, gated)
 		post = ep.db.VerifSnapshot()
 		out = ep.outcome(obs, post)
 		if out == target {
@@ -877,7 +937,12 @@ func (d *driver) doCalls(calls []call, target string) {
 	}
 	op := strings.Join(parts, " ; ")
 	if len(calls) == 2 {
-		op = "par " + op
+		if gated {
+			op = "gpar " + op
+			d.run.Count("gpar")
+		} else {
+			op = "par " + op
+		}
 	}
 	d.run.Op(op+" # "+out, out)
 }
@@ -915,13 +980,13 @@ func (d *driver) execLine(line string) {
 	case "new":
 		d.doNew(atoi(f[1]))
 	case "ext", "int":
-		d.doCalls([]call{parseCall(f)}, target)
-	case "par":
-		rest := strings.Split(strings.TrimPrefix(line, "par "), " ; ")
+		d.doCalls([]call{parseCall(f)}, target, false)
+	case "par", "gpar":
+		rest := strings.Split(strings.TrimPrefix(strings.TrimPrefix(line, "g"), "par "), " ; ")
 		if len(rest) != 2 {
 			panic("bad par op")
 		}
-		d.doCalls([]call{parseCall(strings.Fields(rest[0])), parseCall(strings.Fields(rest[1]))}, target)
+		d.doCalls([]call{parseCall(strings.Fields(rest[0])), parseCall(strings.Fields(rest[1]))}, target, f[0] == "gpar")
 	case "trim":
 		slot, typ := parseDuty(f[1])
 		d.doTrim(slot, typ)
@@ -1043,6 +1108,11 @@ func (g *gen) emit(calls ...call) {
 	g.d.execLine(line)
 }
 
+// emitG: two calls of which the first is parked in the middle while the second runs to completion.
+func (g *gen) emitG(a, b call) {
+	g.d.execLine("gpar " + a.String() + " ; " + b.String())
+}
+
 func (g *gen) episode() {
 	rng := g.rng
 	g.t = 2 + rng.Intn(4)
@@ -1117,6 +1187,26 @@ func (g *gen) episode() {
 			g.emit(g.plain(0, rep))
 		}
 		g.randomOps(3 + rng.Intn(8))
+	case scenario >= 93: // the threshold-th and a further share of every validator arrive in two overlapping batches
+		// (the first is parked after its first insert while the second runs through): exactly one trigger each
+		if g.n == g.t {
+			g.n = g.t + 1
+		}
+		g.nv = 2 + rng.Intn(2)
+		typ := []int{2, 7, 10}[rng.Intn(3)]
+		g.duts = append(g.duts, dutyInfo{base, typ, 'S'})
+		shares := rng.Perm(g.n)
+		for i := 0; i < g.t-1; i++ {
+			g.emit(g.plain(0, shares[i]+1))
+		}
+		a, b := g.plain(0, shares[g.t-1]+1), g.plain(0, shares[g.t]+1)
+		if rng.Chance(1, 3) { // the parked batch in another validator order
+			for i, j := 0, len(a.entries)-1; i < j; i, j = i+1, j-1 {
+				a.entries[i], a.entries[j] = a.entries[j], a.entries[i]
+			}
+		}
+		g.emitG(a, b)
+		g.randomOps(3 + rng.Intn(6))
 	default: // late minority root after the threshold was reached
 		typ := []int{2, 10, 12}[rng.Intn(3)]
 		g.duts = append(g.duts, dutyInfo{base, typ, 'S'})
